@@ -61,12 +61,13 @@ var guardsAssumptions = []string{
 
 // guardsOpts configures one run of the E3 obligations over a set of roots.
 type guardsOpts struct {
-	rule     func(kind string) string // obligation kind -> rule id ("" = do not report this kind)
-	loopRule string                   // rule id for loop progress ("" = skip loops)
-	nest     bool                     // also require constant bounds for loops nested in loops (linear time)
-	excluded map[string]string        // obligation key -> reason: failing obligations with this key are excluded from the claim (note), not reported
-	only     func(f *ssa.Function) bool
-	rootsCat string
+	rule         func(kind string) string    // obligation kind -> rule id ("" = do not report this kind)
+	loopRule     string                      // rule id for loop progress ("" = skip loops)
+	nest         bool                        // also require constant bounds for loops nested in loops (linear time)
+	excludedLoop func(guards.LoopRes) string // non-empty: the loop is excluded from the progress claim for this reason
+	excluded     map[string]string           // obligation key -> reason: failing obligations with this key are excluded from the claim (note), not reported
+	only         func(f *ssa.Function) bool
+	rootsCat     string
 }
 
 // runGuards enumerates and reports the E3 obligations of every function reachable from roots.
@@ -152,11 +153,23 @@ func runGuards(c *Ctx, roots []*ssa.Function, o guardsOpts) (scope []*ssa.Functi
 					r.Note("EXCLUDED from the claim (not analysed): %s — %s", key, why)
 					continue
 				}
+				if o.excludedLoop != nil {
+					if why := o.excludedLoop(lp); why != "" {
+						r.Note("EXCLUDED from the claim (not analysed): %s — %s", key, why)
+						continue
+					}
+				}
 				r.Bad(o.loopRule, key, P.Rel(lp.Pos), want, lp.Why)
 			default:
 				if why, ok := o.excluded[key]; ok {
 					r.Note("EXCLUDED from the claim (not analysed): %s — %s", key, why)
 					continue
+				}
+				if o.excludedLoop != nil {
+					if why := o.excludedLoop(lp); why != "" {
+						r.Note("EXCLUDED from the claim (not analysed): %s — %s", key, why)
+						continue
+					}
 				}
 				r.Unknown(o.loopRule, key, P.Rel(lp.Pos), "recognised loop shape", lp.Why)
 			}
